@@ -1617,6 +1617,15 @@ class Executor(object):
             return S.b_not(self.compare(ast.In(), a, b, node))
         raise VCError('comparison op')
 
+    def expr_Lambda(self, node, st):
+        """lambda args: body  ==  a local function returning body"""
+        fn = ast.FunctionDef(name='<lambda>', args=node.args,
+                             body=[ast.Return(value=node.body)],
+                             decorator_list=[], returns=None)
+        ast.copy_location(fn, node)
+        ast.fix_missing_locations(fn)
+        return _LocalFunc(self.module, fn, st.env)
+
     def expr_IfExp(self, node, st):
         c = S.simp(self.truthy(self.eval(node.test, st), st, node))
         if c is True:
